@@ -162,9 +162,16 @@ func suiteC16(r *Run) {
 			if tS != "-" {
 				opts = append(opts, httpgrpc.WithServerStreamInterceptor(mkS("T", tS)))
 			}
+			// the server may be mounted under a base path: interceptors must still be told "/service/method"
+			base := []string{"/", "/", "/api/v1/", "/x/"}[rng.Intn(4)]
+			if base != "/" {
+				opts = append(opts, httpgrpc.WithBasePath(base))
+				caseDesc["base_path"] = base
+			}
 			hs := httpgrpc.NewServer(opts...)
 			hs.RegisterService(cur, synthImpl{})
 			hm = newHTTPMemGeneric(hs)
+			hm.ch.BaseURL.Path = base
 		}
 
 		// one call per method; then (direct and in-process carriers) a second round on the SAME decorated
